@@ -269,6 +269,34 @@ pub fn run(ctx: &Ctx) -> Report {
     let j: Judge = &judge;
     let (st, nsites) = fault_sweep(ctx, j, 0);
     rep.part("single faults", st, serde_json::json!({"sites": nsites, "scenarios": scenarios(ctx.quick()).iter().map(|s| s.name.clone()).collect::<Vec<_>>()}));
+    // who finalises a multi-block file depends on the schedule: finalisation failures x scheduling deviations
+    {
+        let mut scens = vec![];
+        for d in drivers() {
+            let mut s = sets::tiny(d);
+            s.args.insert(0, "--fsync".into());
+            s.name = format!("C04-finalise-tiny-{}", d);
+            scens.push(s);
+        }
+        let mut s = sets::s2(2, 4);
+        s.args.insert(0, "--fsync".into());
+        s.name = "C04-finalise-S2".into();
+        scens.push(s);
+        let (jobs, _, errs) = fault_jobs(ctx, &scens);
+        let dd = if ctx.quick() { 1 } else { 2 };
+        let jobs: Vec<_> = jobs
+            .into_iter()
+            .filter(|j| j.1.faults.iter().any(|f| matches!(f.call.as_str(), "fchmod" | "utimensat" | "fsync")))
+            .map(|mut j| {
+                j.2 = dd;
+                j
+            })
+            .collect();
+        let n = jobs.len();
+        let mut st = explore(&ctx.pool, jobs, j);
+        st.engine_errors.extend(errs);
+        rep.part("finalisation failures (fchmod / utimensat / fsync) x scheduling deviations on multi-block files", st, serde_json::json!({"fault_runs": n, "d": dd}));
+    }
     if !ctx.quick() {
         let (jobs, _, _) = fault_jobs(ctx, &scenarios(false));
         let firsts: Vec<_> = jobs.into_iter().filter(|j| j.1.faults.len() == 1).collect();
